@@ -206,7 +206,7 @@ Definition env_session (p : sess_params) : aenv :=
 (* every atom of every translated function is known to the environment it is evaluated in *)
 Definition known (l : aenv) (e : gexp) : bool := forallb (fun a => existsb (String.eqb a) (map fst l)) (gatoms e).
 
-Definition dummy_msg : msg := mkMsg 0 0 0 None 0 false false 0 0 false.
+Definition dummy_msg : msg := mkMsg 0 0 0 None 0 false false 0 0 false NoPanic.
 
 Definition dummy_h : hstate := mkH 0 0 0 0 (mkShape 0 (fun _ => false) (fun _ => NoP2P)) 0 [] [] [] [] None false [] 0 0 Running.
 
